@@ -13,5 +13,13 @@ Open Scope string_scope.
 (* both result channels of parallelMerge are buffered with one and the same non-literal capacity
    expression (one slot per worker: Fanout cap >= n); that this expression is the number of
    workers is what the leak detection of the C04 generator observes *)
-Lemma parallel_merge_channels_ok : same_expr_caps 2 chans_parallelMerge = true.
+(* count-free: at least one channel, all with the same non-literal capacity expression (one
+   slot per worker); a rewrite that carries payloads and errors on ONE channel of that capacity
+   regenerates facts that still pass, a literal or smaller capacity on any channel does not *)
+Definition all_same_expr_caps (caps : list string) : bool :=
+  match caps with
+  | [] => false
+  | c :: r => starts_with "expr:" c && forallb (String.eqb c) r
+  end.
+Lemma parallel_merge_channels_ok : all_same_expr_caps chans_parallelMerge = true.
 Proof. vm_compute; reflexivity. Qed.
